@@ -188,6 +188,9 @@ func main() {
 				nCoverSat++
 			} else {
 				// vacuity: precondition/path unsatisfiable (or undecided)
+				if ob.Result != "unsat" {
+					fmt.Printf("cover undecided: %s result=%s (vacuity of this path is not excluded by the solver)\n", ob.Name, ob.Result)
+				}
 				if ob.Result == "unsat" {
 					violations++
 					rp := writeReplay(replayDir, *prop, ob, "vacuous: the assumptions on this path are contradictory")
